@@ -174,7 +174,12 @@ func (r FileReplacer) Replace(d data.Data, cl Changelog) (*ast.File, error) {
 		return nil, err
 	}
 
-	for _, m := range fd.Matches {
+	// Matches were recorded in pre-order: a match comes before the matches
+	// inside it. Replace in reverse so that a nested match is replaced before
+	// the match around it reproduces the code it sits in; otherwise the
+	// nested replacement is written into a node that has been discarded.
+	for i := len(fd.Matches) - 1; i >= 0; i-- {
+		m := fd.Matches[i]
 		v := reflect.Indirect(reflect.ValueOf(m.parent)).FieldByName(m.name)
 		if !v.IsValid() {
 			// This is a bug in our code.
